@@ -213,4 +213,343 @@ theorem sim_peer {s : St} {o : Ob} {m : MS} {g : CFrame} (h : Coup max s o m [])
 theorem sim_peerEof {s : St} {o : Ob} {m : MS} (h : Coup max s o m []) :
     ∃ m', mrun m [.peerEof] = .ok m' ∧ Coup max s o m' [] := ⟨m, mrun_single rfl, h⟩
 
+theorem sim_drain {s : St} {o : Ob} {m : MS} {k : Nat} (h : Coup max s o m []) (hst : s.stack = []) :
+    ∃ m', mrun m [.wire (((o.sub.drop o.reported).take k).map (·.wf))] = .ok m' ∧
+      Coup max s { o with reported := o.reported + k } m' [] := by
+  have hp : pendW s o m.last = [] := by simp [pendW, hst]
+  cases hh : m.healthy with
+  | false =>
+    refine ⟨m, mrun_single ?_, ?_⟩
+    · show Sonic.Spec.WsAsync.step m (.wire _) = _
+      simp [Sonic.Spec.WsAsync.step, hh]
+    · refine ⟨h.max, h.ledMem, h.ledAll, h.stk, h.spec, h.errs, h.hl, h.last, h.subF, h.subM, ?_, h.inb, h.rdq, h.heldOk,
+        h.win, h.chain, h.rdr1, h.rdr2, h.rdr3, h.rdr4, h.rdCan⟩
+      intro h1; rw [hh] at h1; cases h1
+  | true =>
+    have he := h.exp hh
+    rw [hp, List.append_nil] at he
+    have hsplit : m.expect = (((o.sub.drop o.reported).take k).map (fun y => (y.want, y.wf))).map (·.1) ++
+        ((o.sub.drop (o.reported + k)).map (·.want)) := by
+      rw [he, List.map_map, ← List.drop_drop]
+      show _ = List.map (fun x : Sub => x.want) _ ++ _
+      rw [← List.map_append, List.take_append_drop]
+    have hw : (((o.sub.drop o.reported).take k).map (·.wf)) =
+        (((o.sub.drop o.reported).take k).map (fun y => (y.want, y.wf))).map (·.2) := by
+      rw [List.map_map]; rfl
+    have hmw := Sonic.Spec.WsAsync.matchWire_ok ((o.sub.drop (o.reported + k)).map (·.want))
+      (((o.sub.drop o.reported).take k).map (fun y => (y.want, y.wf))) (by
+        intro y hy
+        obtain ⟨z, hz, rfl⟩ := List.mem_map.1 hy
+        exact h.subM z (List.mem_of_mem_drop (List.mem_of_mem_take hz)))
+    refine ⟨{ m with expect := (o.sub.drop (o.reported + k)).map (·.want) }, mrun_single ?_, ?_⟩
+    · show Sonic.Spec.WsAsync.step m (.wire _) = _
+      simp only [Sonic.Spec.WsAsync.step, hh, Bool.not_true, Bool.false_eq_true, if_false]
+      rw [hw, hsplit, hmw]
+      rfl
+    · refine ⟨h.max, h.ledMem, h.ledAll, h.stk, h.spec, h.errs, h.hl, h.last, h.subF, h.subM, ?_, h.inb, h.rdq, h.heldOk,
+        h.win, h.chain, h.rdr1, h.rdr2, h.rdr3, h.rdr4, h.rdCan⟩
+      intro _
+      show _ ++ pendW s _ m.last = _
+      rw [show pendW s { o with reported := o.reported + k } m.last = [] from by simp [pendW, hst], List.append_nil]
+
+theorem log_of_quiescent {s : St} (hI : Inv s) (hq : quiescent s) : ∀ c ∈ s.started, c ∈ s.log := by
+  intro c hc
+  obtain ⟨hst, hwr, hrd⟩ := hq
+  have hw : s.waiters = [] := hI.core.idle (by rw [hI.core.flushWr, hwr]; rfl)
+  have h1 := hI.cbs c
+  have h3 : 0 < s.started.count c := List.count_pos_iff.2 hc
+  simp only [owedList, wrCbs, rdCbs, hst, hwr, hrd, hw, List.flatMap_nil, List.append_nil, List.countP_nil, Nat.add_zero] at h1
+  exact List.count_pos_iff.1 (by omega)
+
+theorem sim_finish {s : St} {o : Ob} {m : MS} (hI : Inv s) (h : Coup max s o m []) (hq : quiescent s)
+    (hp : s.pending = []) (hr : o.reported = s.wire.length) :
+    ∃ m', mrun m [.finish 0 s.healthy] = .ok m' ∧ Coup max s o m' [] := by
+  refine ⟨m, mrun_single ?_, h⟩
+  show Sonic.Spec.WsAsync.step m (.finish 0 s.healthy) = _
+  simp only [Sonic.Spec.WsAsync.step]
+  by_cases hh : (s.healthy && m.healthy) = true
+  · simp only [Bool.and_eq_true] at hh
+    have hdone : m.cbs.any (fun c => !c.done) = false := by
+      rw [List.any_eq_false]
+      intro c hc
+      obtain ⟨h1, h2, _⟩ := h.ledMem c hc
+      rw [h2]
+      simp [log_of_quiescent hI hq c.id h1]
+    have hexp : m.expect = [] := by
+      have he := h.exp hh.2
+      rw [show pendW s o m.last = [] from by simp [pendW, hq.1], List.append_nil] at he
+      have hw := hI.wire.frames hh.1
+      simp only [wrBuf, hq.2.1, hp, List.append_nil] at hw
+      have hl : o.sub.length = s.wire.length := by
+        rw [hw, ← h.subF, List.length_map]
+      rw [he, hr, ← hl, List.drop_length]
+      rfl
+    simp [hh.1, hh.2, hdone, hexp]
+  · rw [if_pos]
+    cases h1 : s.healthy <;> cases h2 : m.healthy <;> simp_all
+
+/-- Changes of the model state the coupling does not look at (transport progress), possibly with the transport failing. -/
+theorem coup_same {s s1 : St} {o : Ob} {m : MS} {x : List CFrame} (hb : Bool) (h : Coup max s o m x)
+    (e1 : s1.ws = s.ws) (e2 : s1.submitted = s.submitted) (e3 : s1.started = s.started) (e4 : s1.log = s.log)
+    (e5 : s1.readBusy = s.readBusy) (e6 : s1.inbox = s.inbox) (e7 : s1.rd.isSome = true → s.ws.canRead = true)
+    (e8 : s1.stack = s.stack)
+    (hlocs : ∀ p ∈ locs s1, p ∈ locs s) (hhl : hb = true → m.healthy = true ∧ s1.healthy = true)
+    (herr : m.healthy = false → hb = false) : Coup max s1 o { m with healthy := hb } x := by
+  have hpw : ∀ l, pendW s1 o l = pendW s o l := fun l => by simp only [pendW, e8, e1]
+  refine ⟨h.max, ?_, ?_, ?_, ?_, ?_, ?_, ?_, ?_, h.subM, ?_, ?_, ?_, h.heldOk, ?_, ?_, ?_, ?_, h.rdr3, h.rdr4, ?_⟩
+  · rw [e3, e4]; exact h.ledMem
+  · rw [e3]; exact h.ledAll
+  · rw [e8]; exact h.stk
+  · rw [e8]; exact h.spec
+  · intro cb hc; rw [e8] at hc; exact herr (h.errs cb hc)
+  · intro hh; exact (hhl hh).2
+  · rw [e8, e1]; exact h.last
+  · rw [e2]; exact h.subF
+  · intro hh; rw [hpw]; exact h.exp (hhl hh).1
+  · rw [e6]; exact h.inb
+  · rw [e1]; exact h.rdq
+  · have := h.win
+    unfold Window at this ⊢
+    rw [e8, e1]
+    exact this
+  · intro p hp; exact h.chain p (hlocs p hp)
+  · rw [e5]; exact h.rdr1
+  · intro p hp; exact h.rdr2 p (hlocs p hp)
+  · intro hr; rw [e1]; exact e7 hr
+
+theorem all_not_special {s : St} {o : Ob} {m : MS} {x : List CFrame} (h : Coup max s o m x) {t : Task} {rest : List Task}
+    (hst : s.stack = t :: rest) (ht : special t = false) : ∀ t' ∈ s.stack, special t' = false := by
+  intro t' ht'
+  rw [hst] at ht'
+  rcases List.mem_cons.1 ht' with rfl | h1
+  · exact ht
+  · apply h.spec; rw [hst]; exact h1
+
+theorem hk_of_locs {s : St} {o : Ob} {m : MS} {x : List CFrame} (h : Coup max s o m x) {k : Cont}
+    (hsub : ∀ p ∈ contK k, p ∈ locs s) :
+    ∀ p ∈ contK k, compat (kindOf o p.1) p.2 ∧
+      (p.2.isRd = true → ∃ b, o.reader = some (p.1, b) ∧ (p.2 = .f → b = false) ∧ (p.2 = .m → b = true)) :=
+  fun p hp => ⟨h.chain p (hsub p hp), h.rdr2 p (hsub p hp)⟩
+
+theorem sim_wrote {s s' : St} {o : Ob} {m : MS} {n : Nat} (h : Coup max s o m [])
+    (hs : step true prog s (.wrote n) = some s') : Coup max s' o m [] := by
+  simp only [step] at hs
+  split at hs
+  · rename_i rest w hst hwr
+    have hlw : ∀ p ∈ contK w.k, p ∈ locs s := fun p hp => by
+      simp only [locs, wrK, hwr, List.mem_append]; mem_or
+    have hl : m.last = stOf s.ws := last_of_not_window h (by rw [hst]; rfl)
+    have hns := all_not_special h hst rfl
+    split at hs
+    · split at hs
+      · cases hs
+        refine coup_fl (s1 := _) ?_ (asyncFlushGo_fl _ w.k) hns (Or.inl hl) (fun e => by cases e)
+          (hk_of_locs h hlw)
+        exact coup_same m.healthy h rfl rfl rfl rfl rfl rfl (fun hr => h.rdCan hr) rfl
+          (fun p hp => by
+            simp only [locs, wrK, rdK, List.mem_append, List.not_mem_nil, or_false] at hp ⊢
+            rcases hp with (h | h) | h <;> mem_or)
+          (fun hh => ⟨hh, h.hl hh⟩) (fun hh => hh)
+      · cases hs
+        exact coup_same m.healthy h rfl rfl rfl rfl rfl rfl (fun hr => h.rdCan hr) rfl
+          (fun p hp => by
+            simp only [locs, wrK, rdK, hwr, List.mem_append] at hp ⊢
+            exact hp)
+          (fun hh => ⟨hh, h.hl hh⟩) (fun hh => hh)
+    · cases hs
+  · cases hs
+
+theorem sim_wrErr {s s' : St} {o : Ob} {m : MS} (h : Coup max s o m [])
+    (hs : step true prog s .wrErr = some s') : ∃ m', mrun m [.transportErr] = .ok m' ∧ Coup max s' o m' [] := by
+  simp only [step] at hs
+  split at hs
+  · rename_i rest w hst hwr
+    cases hs
+    have hlw : ∀ p ∈ contK w.k, p ∈ locs s := fun p hp => by
+      simp only [locs, wrK, hwr, List.mem_append]; mem_or
+    have hl : m.last = stOf s.ws := last_of_not_window h (by rw [hst]; rfl)
+    have hns := all_not_special h hst rfl
+    refine ⟨{ m with healthy := false }, mrun_single rfl, ?_⟩
+    refine coup_fl (s1 := _) ?_ (flushDone_fl _ w.k false) hns (Or.inl hl) (fun _ => rfl)
+      (hk_of_locs h hlw)
+    exact coup_same false h rfl rfl rfl rfl rfl rfl (fun hr => h.rdCan hr) rfl
+      (fun p hp => by
+        simp only [locs, wrK, rdK, List.mem_append, List.not_mem_nil, or_false] at hp ⊢
+        rcases hp with (h | h) | h <;> mem_or)
+      (fun hh => by cases hh) (fun _ => rfl)
+  · cases hs
+
+theorem sim_again {s : St} {o : Ob} {m : MS} {cb : CbId} {rk : RKind} {rest : List Task} (h : Coup max s o m [])
+    (hst : s.stack = .again cb rk :: rest) :
+    Coup max (asyncFlush true { s with stack := rest } (.readStart cb rk)) o m [] := by
+  have hstk := h.stk
+  rw [hst, List.filterMap_cons] at hstk
+  have hl : m.last = stOf s.ws := last_of_not_window h (by rw [hst]; rfl)
+  have h0 : Coup max { s with stack := rest } o m [] :=
+    coup_pop h hst rfl m rfl rfl rfl rfl rfl rfl hstk hl (fun c hc => ⟨c, hc, rfl, rfl, rfl⟩) (fun c hc => ⟨c, hc, rfl⟩)
+  have hlw : ∀ p ∈ contK (.readStart cb rk), p ∈ locs s := fun p hp => by
+    simp only [locs, hst, List.flatMap_cons, taskK, List.mem_append]
+    simp only [contK] at hp
+    mem_or
+  exact coup_fl h0 (asyncFlush_fl _ _) (fun t ht => h.spec t (by rw [hst]; exact ht)) (Or.inl hl) (fun e => by cases e)
+    (hk_of_locs h hlw)
+
+theorem enterPush_fail (k : Kind) (last st : StreamState) {r : Res} (hr : r = .eof ∨ r = .err) (f : Option CFrame) :
+    enterPush k last st (resOf r) f = [] := by
+  rcases hr with rfl | rfl <;> cases f <;> simp [enterPush, failW, resOf]
+
+/-- The read path gives up (end of stream, transport error, closed stream): the reader's callback is scheduled with an
+error. -/
+theorem coup_rinvoke {s s' : St} {o : Ob} {m : MS} (hb : Bool) (c' : Option CFrame) {cb : CbId} {lk : LK} {r : Res}
+    {base : List Task} (h : Coup max s o m [])
+    (hloc : (cb, lk) ∈ locs s) (hlk : lk = .f ∨ lk = .m) (hr : r = .eof ∨ r = .err)
+    (hstack' : s'.stack = .invoke cb r true :: base)
+    (hstk : m.stack.map shapeF = base.filterMap shapeT) (hbmem : ∀ t ∈ base, t ∈ s.stack)
+    (hbns : ∀ t ∈ base, special t = false)
+    (htop : ∀ t rest, s.stack = t :: rest → special t = false)
+    (hws : s'.ws = .terminated ∨ (s'.ws = s.ws ∧ r = .err ∧ c' = none))
+    (e2 : s'.submitted = s.submitted) (e3 : s'.started = s.started) (e4 : s'.log = s.log)
+    (e5 : s'.readBusy = s.readBusy) (e6 : s'.inbox = s.inbox) (hrd : s'.rd = none)
+    (hlocs : ∀ p ∈ locs s', p = (cb, .r) ∨ p ∈ locs s)
+    (hhl : hb = true → m.healthy = true ∧ s'.healthy = true) (herr : m.healthy = false → hb = false) :
+    Coup max s' { o with cur := c' } { m with healthy := hb } [] := by
+  have hcur : o.cur = none := cur_of_not_special h.win htop
+  have hp1 : pendW s o m.last = [] := pendW_of_not_special o _ htop
+  have hkc := h.chain _ hloc
+  obtain ⟨b, hrdr, hb1, hb2⟩ := h.rdr2 _ hloc (by rcases hlk with rfl | rfl <;> rfl)
+  have hk3 := h.rdr3 cb b hrdr
+  refine ⟨h.max, ?_, ?_, ?_, ?_, ?_, ?_, ?_, ?_, h.subM, ?_, ?_, ?_, h.heldOk, ?_, ?_, ?_, ?_, h.rdr3, h.rdr4, ?_⟩
+  · rw [e3, e4]; exact h.ledMem
+  · rw [e3]; exact h.ledAll
+  · rw [hstack', List.filterMap_cons]; exact hstk
+  · rw [hstack']; exact hbns
+  · intro cb' hc
+    rw [hstack'] at hc
+    rcases List.mem_cons.1 hc with h1 | h1
+    · cases h1
+    · exact herr (h.errs cb' (hbmem _ h1))
+  · intro hh; exact (hhl hh).2
+  · right; rw [hstack']; rfl
+  · rw [e2]; exact h.subF
+  · intro hh
+    have := h.exp (hhl hh).1
+    rw [hp1] at this
+    show m.expect ++ pendW s' _ m.last = _
+    rw [show pendW s' { o with cur := c' } m.last = [] from by
+      simp only [pendW, hstack']; exact enterPush_fail _ _ _ hr _]
+    exact this
+  · rw [e6]; exact h.inb
+  · intro hsy hne
+    rcases hws with h1 | ⟨h1, _, h3⟩
+    · exact absurd h1 hne
+    · rw [h1] at hne
+      have := h.rdq hsy hne
+      rw [hcur] at this
+      rw [h3]
+      exact this
+  · unfold Window
+    rw [hstack']
+    refine ⟨by rcases hr with rfl | rfl <;> simp, ?_, ?_, ?_⟩
+    · intro he
+      rcases hws with h1 | ⟨_, h2, _⟩
+      · exact h1
+      · rw [he] at h2; cases h2
+    · intro hkr
+      refine ⟨?_, fun h1 => by rcases hr with rfl | rfl <;> simp at h1⟩
+      have hbf : b = false := by
+        cases b with
+        | false => rfl
+        | true => rw [show kindOf { o with cur := c' } cb = kindOf o cb from rfl, hk3] at hkr; cases hkr
+      exact (h.rdr4 (fun cb' e => by rw [hrdr, hbf] at e; cases e)).1
+    · intro _ h1; rcases hr with rfl | rfl <;> cases h1
+  · intro p hp
+    rcases hlocs p hp with rfl | h1
+    · show (kindOf o cb).isRead = true
+      rcases hlk with rfl | rfl
+      · rw [show kindOf o cb = .read from hkc]; rfl
+      · rw [show kindOf o cb = .readMsg from hkc]; rfl
+    · exact h.chain p h1
+  · rw [e5]; exact h.rdr1
+  · intro p hp hrp
+    rcases hlocs p hp with rfl | h1
+    · exact ⟨b, hrdr, (fun e => by cases e), (fun e => by cases e)⟩
+    · exact h.rdr2 p h1 hrp
+  · intro hr'; rw [hrd] at hr'; cases hr'
+
+theorem lk_cases (rk : RKind) : rk.lk = .f ∨ rk.lk = .m := by cases rk <;> simp [RKind.lk]
+
+theorem top_not_special {s : St} {t : Task} {rest : List Task} (hst : s.stack = t :: rest) (ht : special t = false) :
+    ∀ t' r, s.stack = t' :: r → special t' = false := by
+  intro t' r e; rw [hst] at e; cases e; exact ht
+
+theorem sim_rdEof {s s' : St} {o : Ob} {m : MS} (h : Coup max s o m [])
+    (hs : step true prog s .rdEof = some s') : Coup max s' { o with cur := some close1006 } m [] := by
+  simp only [step] at hs
+  split at hs
+  · rename_i rest cb rk hst hrd
+    cases hs
+    have hns := all_not_special h hst rfl
+    exact coup_rinvoke (lk := rk.lk) (r := .eof) (base := s.stack) m.healthy (some close1006) h
+      (by simp only [locs, rdK, hrd, List.mem_append, List.mem_singleton]; mem_or)
+      (lk_cases rk) (Or.inl rfl) rfl h.stk (fun t ht => ht) hns (top_not_special hst rfl) (Or.inl rfl) rfl rfl rfl rfl rfl rfl
+      (fun p hp => by
+        simp only [locs, push, wrK, rdK, List.cons_append, List.nil_append, List.flatMap_cons, taskK, if_true, List.mem_append,
+          List.mem_cons, List.not_mem_nil, or_false] at hp ⊢
+        rcases hp with (h | h) | h | h <;> mem_or)
+      (fun hh => ⟨hh, h.hl hh⟩) (fun hh => hh)
+  · cases hs
+
+theorem sim_rdErr {s s' : St} {o : Ob} {m : MS} (h : Coup max s o m [])
+    (hs : step true prog s .rdErr = some s') :
+    ∃ m', mrun m [.transportErr] = .ok m' ∧ Coup max s' { o with cur := none } m' [] := by
+  simp only [step] at hs
+  split at hs
+  · rename_i rest cb rk hst hrd
+    cases hs
+    have hns := all_not_special h hst rfl
+    refine ⟨{ m with healthy := false }, mrun_single rfl, ?_⟩
+    exact coup_rinvoke (lk := rk.lk) (r := .err) (base := s.stack) false none h
+      (by simp only [locs, rdK, hrd, List.mem_append, List.mem_singleton]; mem_or)
+      (lk_cases rk) (Or.inr rfl) rfl h.stk (fun t ht => ht) hns (top_not_special hst rfl) (Or.inr ⟨rfl, rfl, rfl⟩) rfl rfl rfl rfl
+      rfl rfl
+      (fun p hp => by
+        simp only [locs, push, wrK, rdK, List.cons_append, List.nil_append, List.flatMap_cons, taskK, if_true, List.mem_append,
+          List.mem_cons, List.not_mem_nil, or_false] at hp ⊢
+        rcases hp with (h | h) | h | h <;> mem_or)
+      (fun hh => by cases hh) (fun _ => rfl)
+  · cases hs
+
+theorem sim_resume_fail {s : St} {o : Ob} {m : MS} {cb : CbId} {rk : RKind} {ok : Bool} {rest : List Task}
+    (hI : Inv s) (h : Coup max s o m []) (hst : s.stack = .resume cb rk ok :: rest) :
+    Coup max (push { s with stack := rest, ws := .terminated } [.invoke cb (if ok then .eof else .err) true])
+      { o with cur := none } m [] := by
+  have hstk := h.stk
+  rw [hst, List.filterMap_cons] at hstk
+  have hrd : s.rd = none := rd_none_of_reader_on_stack (cb := cb) hI hst (by simp [taskCbs])
+  exact coup_rinvoke (lk := rk.lk) (r := if ok then .eof else .err) (base := rest) m.healthy none h
+    (by simp only [locs, hst, List.flatMap_cons, taskK, List.mem_append, List.mem_singleton]; mem_or)
+    (lk_cases rk) (by cases ok <;> simp) rfl hstk (fun t ht => by rw [hst]; exact List.mem_cons_of_mem _ ht)
+    (fun t ht => h.spec t (by rw [hst]; exact ht)) (top_not_special hst rfl) (Or.inl rfl) rfl rfl rfl rfl rfl
+    hrd
+    (fun p hp => by
+      simp only [locs, push, wrK, rdK, hst, List.cons_append, List.nil_append, List.flatMap_cons, taskK, if_true,
+        List.mem_append, List.mem_cons, List.not_mem_nil, or_false] at hp ⊢
+      rcases hp with ((h | h) | h) | h | h <;> mem_or)
+    (fun hh => ⟨hh, h.hl hh⟩) (fun hh => hh)
+
+theorem sim_resume_arm {s : St} {o : Ob} {m : MS} {cb : CbId} {rk : RKind} {ok : Bool} {rest : List Task}
+    (h : Coup max s o m []) (hst : s.stack = .resume cb rk ok :: rest) (hcan : s.ws.canRead = true) :
+    Coup max { s with stack := rest, rd := some (cb, rk) } o m [] := by
+  have hstk := h.stk
+  rw [hst, List.filterMap_cons] at hstk
+  have hl : m.last = stOf s.ws := last_of_not_window h (by rw [hst]; rfl)
+  have h1 : Coup max { s with rd := some (cb, rk) } o m [] :=
+    coup_same m.healthy h rfl rfl rfl rfl rfl rfl (fun _ => hcan) rfl
+      (fun p hp => by
+        simp only [locs, wrK, rdK, hst, List.flatMap_cons, taskK, List.mem_append, List.mem_singleton] at hp ⊢
+        rcases hp with ((h | h) | h) | h | h <;> mem_or)
+      (fun hh => ⟨hh, h.hl hh⟩) (fun hh => hh)
+  exact coup_pop (s := { s with rd := some (cb, rk) }) h1 hst rfl m rfl rfl rfl rfl rfl rfl hstk hl
+    (fun c hc => ⟨c, hc, rfl, rfl, rfl⟩) (fun c hc => ⟨c, hc, rfl⟩)
+
 end Sonic.Model.WsAsyncObs
